@@ -8,14 +8,14 @@ from multiprocessing import Pool
 
 from . import core
 
-UNIVERSE = {"Foo", "Bar", "Baz", "Qux", "Zed", "EEMSRead", "EEMSWrite"}
+UNIVERSE = {"Foo", "Bar", "Baz", "Qux", "Zed", "EEMSRead", "EEMSWrite", "Alias"}
 
 
-def histories(maxhist, simulate=None, workers=8):
+def histories(maxhist, simulate=None, workers=8, pairs=True):
     d = core.scratch_dir("mpv-reg-")
     cfg = os.path.join(d, "r.cfg")
     with open(cfg, "w") as f:
-        f.write('CONSTANTS PrefixRule = "component" MaxHist = %d\nINIT Init\nNEXT Next\nCHECK_DEADLOCK FALSE\nINVARIANT HistoryIndependent\nINVARIANT Report\n' % maxhist)
+        f.write('CONSTANTS PrefixRule = "component" MaxHist = %d PairsAllowed = %s\nINIT Init\nNEXT Next\nCHECK_DEADLOCK FALSE\nINVARIANT HistoryIndependent\nINVARIANT Report\n' % (maxhist, "TRUE" if pairs else "FALSE"))
     r = core.run_tlc("MPRegistry", cfg, workers=workers, timeout=1500, simulate=simulate, depth=maxhist + 2 if simulate else None, seed=core.SEED if simulate else None)
     if simulate and r.states == 0:
         import re
@@ -45,8 +45,14 @@ def replay(job):
     from mpilot.exceptions import MPilotError
 
     ev = []
-    for act, arg in hist:
-        if act == "import":
+    progs = {}
+    for step, (act, arg) in enumerate(hist, 1):
+        if act == "mutate":
+            p = progs.get(arg)
+            if p is not None:
+                p.command_library["Alias"] = Command
+            ev.append([act, arg, []])
+        elif act == "import":
             importlib.import_module(".".join(arg))
             ev.append([act, arg, []])
         elif act == "define":
@@ -57,6 +63,7 @@ def replay(job):
             libs = tuple(".".join(l) for l in arg)
             try:
                 p = Program(libraries=libs)
+                progs[step] = p
                 table = sorted([cls.__module__.split("."), name] for name, cls in p.command_library.items() if name in UNIVERSE)
                 ev.append([act, arg, ["table", table]])
             except MPilotError as e:
@@ -79,7 +86,9 @@ def check_C19(tier):
     chk.add_tlc("MPRegistry all histories of 2 actions", r2, 'PrefixRule="component" MaxHist=2 invariant HistoryIndependent')
     r3, h3 = histories(3, simulate="num=%d" % (300 if tier == "quick" else 4000))
     chk.add_tlc("MPRegistry simulated histories of 3 actions", r3, 'PrefixRule="component" MaxHist=3 (-simulate)')
-    hs = h2 + h3
+    r3s, h3s = histories(3, pairs=False)
+    chk.add_tlc("MPRegistry all histories of 3 actions over single libraries", r3s, 'PrefixRule="component" MaxHist=3 PairsAllowed=FALSE')
+    hs = h2 + h3 + h3s
     jobs = list(enumerate(hs))
     with Pool(core.NCPU, maxtasksperchild=1) as pool:
         records = pool.map(replay, jobs, chunksize=1)
@@ -88,7 +97,7 @@ def check_C19(tier):
     d = core.scratch_dir("mpv-regt-")
     cfg = os.path.join(d, "t.cfg")
     with open(cfg, "w") as f:
-        f.write('CONSTANTS PrefixRule = "component" MaxHist = 3\nINIT TInit\nNEXT TNext\nCHECK_DEADLOCK FALSE\nINVARIANT TReport\n')
+        f.write('CONSTANTS PrefixRule = "component" MaxHist = 3 PairsAllowed = TRUE\nINIT TInit\nNEXT TNext\nCHECK_DEADLOCK FALSE\nINVARIANT TReport\n')
     path = os.path.join(d, "t.ndjson")
     with open(path, "w") as f:
         for rec in records:
